@@ -148,6 +148,9 @@ theorem callee_tables_ok :
   decide +kernel
 
 
+/-- strip the sub-lock from an access (the pre-fix code had no `missingMutex`) -/
+def unsub (a : Access) : Access := { a with sub := "", subId := 0 }
+
 /-! ## every exported method of the trie: inside the discipline or not, and why
 
 `tableOK (m :: mptScope)`: does the claimed scope together with `m` satisfy the discipline? (For a method already
@@ -183,24 +186,38 @@ theorem iterateFrom_status :
   decide +kernel
 
 /-- `MergeMPTChanges`: three critical sections (it reads its own root and store, and the child's root, before it
-takes the write lock: check-then-act, repeated under the lock by `mergeChanges`), and it assigns
-`db.version` — a field of the LevelNodeDB behind `db` — holding the trie's write lock but not the store's mutex -/
+takes the write lock: check-then-act, repeated under the lock by `mergeChanges`) — that is why it is outside the
+discipline. Its assignment of `db.version` — a field of the LevelNodeDB behind `db` — is made holding the trie's
+write lock AND (since 0a1942f) the store's own mutex `db.mutex` -/
 theorem mergeMPTChanges_status :
     mpt_MergeMPTChanges.sections = 3 ∧
     (mpt_MergeMPTChanges.accesses.filter (fun a => a.kind == .innerWrite)).map
-      (fun a => (a.field, a.callee, a.mode, a.subId)) = [("db", "version", .write, 0)] ∧
+      (fun a => (a.field, a.callee, a.mode, a.sub)) = [("db", "version", .write, "db.mutex")] ∧
     levelNodeDB_GetDBVersion.accesses.map (fun a => (a.field, a.fid, a.kind, a.mode)) = [("version", 6, .read, .read)] := by
   decide +kernel
 
-/-- … the concrete conflicting pair, in the LevelNodeDB's own lock space: the write of `version` (field 6) without
-the store's mutex against `LevelNodeDB.GetDBVersion`'s read under the store's read lock. Within ONE trie all other
-accesses to the store go through the trie's lock, so the pair needs a caller of `GetDBVersion` on the shared store
-(confirmed with the race detector: corpus/C16/extra/candidate_mergempt_dbversion_race.ops; concurrent merges of
-several children into one parent are race-free in the runs) -/
-theorem mergeMPTChanges_version_conflict :
-    ¬ Protected { loc := 6, write := true, sub := 0, held := none } { loc := 6, write := false, sub := 0, held := some .R } := by
+/-- … so, in the LevelNodeDB's own lock space, the write of `version` (field 6, store mutex held in W mode) and
+`LevelNodeDB.GetDBVersion`'s read under the store's read lock exclude each other -/
+theorem mergeMPTChanges_version_protected :
+    Protected { loc := 6, write := true, sub := 0, held := some .W } { loc := 6, write := false, sub := 0, held := some .R } := by
   simp [Protected]
 
+/-- `MergeMPTChanges` as the extractor read it before 0a1942f (hand-copied: `db.version = newLNDB.version` under the
+trie's write lock only) -/
+def oldMergeMPTChanges : Method :=
+  { mpt_MergeMPTChanges with
+      accesses := mpt_MergeMPTChanges.accesses.map (fun a => if a.kind == .innerWrite then unsub a else a) }
+
+theorem mergeMPTChangesOld_status :
+    (oldMergeMPTChanges.accesses.filter (fun a => a.kind == .innerWrite)).map
+      (fun a => (a.field, a.callee, a.mode, a.subId)) = [("db", "version", .write, 0)] := by
+  decide +kernel
+
+/-- the pre-fix conflicting pair: the write of `version` WITHOUT the store's mutex against `GetDBVersion`'s read
+under the store's read lock (race detector: corpus/C16/fixed_mergempt_dbversion_race.ops, 20/20 before the fix) -/
+theorem mergeMPTChangesOld_version_conflict :
+    ¬ Protected { loc := 6, write := true, sub := 0, held := none } { loc := 6, write := false, sub := 0, held := some .R } := by
+  simp [Protected]
 
 /-! ## several tries over one store (parent / child tries share the parent's store)
 
@@ -262,9 +279,6 @@ example : ∀ t p, p ∈ (fun (t : Tid) => match t with
   | n + 2, hp => simp at hp
 
 /-! ## the original code (commit 70d872e) -/
-
-/-- strip the sub-lock from an access (the pre-fix code had no `missingMutex`) -/
-def unsub (a : Access) : Access := { a with sub := "", subId := 0 }
 
 /-- hand-copied from the table the extractor produces for commit 70d872e: `addMissingNodeKeys` appended to
 `missingNodeKeys` with no lock of its own ... -/
